@@ -248,7 +248,8 @@ PROPS = {
                  'what matching returns for a query is the C01/C04 model (parameter resultsOf of the session model)'],
         level_text='Lean 4 theorems over the session model, for every history of action lists and every option set: the query cursor '
                    'stays inside the query, never more than --multi items are selected (none without --multi), after rendering the '
-                   'list cursor designates an existing result or the list is empty; toggle is an involution below the limit; '
+                   'list cursor designates an existing result or the list is empty, and that result is inside the list window '
+                   '(offset <= cy < offset + rows, the window never scrolls past the end of the list); toggle is an involution below the limit; '
                    'kill-line + yank restores the query; selections survive query changes; with --track the cursor follows its '
                    'item; excluded items stay out; while the input section is hidden no action changes the query. The action interpreter of the real '
                    'binary is compared step by step with the model.',
